@@ -26,6 +26,12 @@ CHECKS = {
  "C15": dict(level="exploration", tech="reference-model monitor over an exhaustive calendar-boundary grid: each timestamp through String/ParseTimestamp, text and binary write+read, reference encodings/spellings; negative corpus; sub-nanosecond fraction rounding judged with exact rational arithmetic",
    text="Held on the timestamps explored: grid of years {1,2,1900,2000,2023,2024,9998,9999} x every month x boundary days x 3 times x 12 offsets (incl. UTC year 0/10000) x precisions x fraction digits 0..9 (quick: seeded subsample), random timestamps, 42 impossible strings, 19 impossible binary encodings, 10..30-digit fractions in text and binary within 0.5 ns.",
    note="Oracle: independent proleptic-Gregorian arithmetic in the harness model (no time.Time); reftext/refbin lexers.", ref="3 C15"),
+ "C07": dict(level="exploration", tech="fault-catalogue monitor: valid documents from the reference producers made invalid by catalogued edits (truncation at every interior offset, invalid atoms substituted with consistent enclosing lengths), cross-checked by the independent reference decoder; oracle on Reader.Err stickiness after a full traversal",
+   text="Held on the edited documents produced: every interior truncation offset of every top-level item, 80+ binary and 110+ text invalid atoms (illegal tag/length pairs, negative zero, wrapper faults, impossible calendar fields, non-UTF-8, undefined ids, bad digits/escapes/separators/annotations/field names/base64) substituted at random depths; after the traversal Err() != nil, three further Next() false, Err() unchanged in type and message.",
+   note="An edit counts only if the independent reference decoder rejects the result (edits it accepts are dropped and counted). Level is exploration, not fault enumeration: positions are exhaustive per document, documents are sampled.", ref="3 C07"),
+ "C08": dict(level="exploration", tech="reference-cursor monitor: scripted navigation programs (skip / read / wrong accessor / refused StepIn / early StepOut / StepOut at top level / Next after end) over documents from both reference producers, every observation compared with a cursor over the model tree; exhaustive program enumeration for small documents",
+   text="Held on the (document, program) pairs executed: all decision scripts for documents with <= 8 values (capped at 3000), 50 random programs for larger ones, text and binary, with skipped regions containing comments, long strings, lobs with delimiters, NOP pads, nested containers.",
+   note="Trusted: the reference cursor (contract of reader.go's doc comment). FieldName/Annotations are not compared where a plain traversal would not look (no current value).", ref="3 C08"),
 }
 NA = {}
 def main():
